@@ -40,6 +40,12 @@ type Ctx struct {
 
 type unownedAbort struct{}
 
+// IsUnowned reports whether a recovered panic value is the search core's "this subtree belongs to another worker" signal.
+func IsUnowned(r any) bool { _, ok := r.(unownedAbort); return ok }
+
+// AbortUnowned raises that signal (for a choice point that was reached on another goroutine than the one Explore runs on).
+func AbortUnowned() { panic(unownedAbort{}) }
+
 func lab(s string) uint32 {
 	h := fnv.New32a()
 	h.Write([]byte(s))
